@@ -45,7 +45,10 @@ class AsyncResult(g_AsyncResult):
     results = [None] * num_ars
     def complete(_n, _ar):
       if _ar.exception:
-        ret.set_exception(_ar.exception)
+        # Only the first failure completes the result, later ones must not
+        # replace it.
+        if not ret.ready():
+          ret.set_exception(_ar.exception)
       elif not ret.ready():
         total[0] -= 1
         results[_n] = _ar.value
@@ -69,7 +72,9 @@ class AsyncResult(g_AsyncResult):
       The AsyncResult's value will be set to the value of the first result to
       complete, or, if all fail, the exception thrown by the last to fail.
     """
-    ready_ars = [ar for ar in ars if ar.ready()]
+    # An input that already failed does not decide the outcome, the others
+    # may still succeed.
+    ready_ars = [ar for ar in ars if ar.successful()]
     if ready_ars:
       return ready_ars[0]
 
@@ -77,10 +82,14 @@ class AsyncResult(g_AsyncResult):
     total = [len(ars)]
     def complete(_ar):
       total[0] -= 1
-      if total[0] == 0 and _ar.exception:
-        ret.set_exception(_ar.exception)
-      elif not ret.ready() and _ar.successful():
+      if ret.ready():
+        # Already resolved by an earlier success, later failures must not
+        # replace it.
+        return
+      if _ar.successful():
         ret.set(_ar.value)
+      elif total[0] == 0:
+        ret.set_exception(_ar.exception)
 
     for ar in ars:
       ar.rawlink(complete)
